@@ -95,6 +95,7 @@ type scenario struct {
 	//   ""         a regular file <MID>.b2f
 	//   "symlink"  <MID>.b2f is a symbolic link to a regular file kept in a store directory next to the folders
 	//   "upperext" the file is named <MID>.B2F (the folder listing takes any case of the extension)
+	//   "hardlink" the regular file <MID>.b2f has a second hard link in a store directory next to the folders
 	Var string `json:"var,omitempty"`
 }
 
@@ -145,6 +146,15 @@ func (sc scenario) applyVar(dir string) error {
 				return err
 			}
 			if err := os.Symlink(filepath.Join("..", storeDir, filepath.Base(rel)), p); err != nil {
+				return err
+			}
+		case "hardlink":
+			// a second name of the same file outside the folders (an archive or snapshot made with "cp -l"): the operation
+			// must not go through the shared file in a way that leaves both names with half a message
+			if err := os.MkdirAll(filepath.Join(dir, storeDir), 0o755); err != nil {
+				return err
+			}
+			if err := os.Link(p, filepath.Join(dir, storeDir, filepath.Base(rel))); err != nil {
 				return err
 			}
 		case "upperext":
@@ -334,6 +344,25 @@ func (b *bench) fresh() error {
 	os.RemoveAll(b.runDir)
 	if err := mboxkit.CopyTree(b.preDir, b.runDir); err != nil {
 		return err
+	}
+	if b.sc.Var == "hardlink" {
+		// the copy made two files of the two names: make them one file again
+		for _, rel := range b.sc.targetPaths() {
+			p, q := filepath.Join(b.runDir, rel), filepath.Join(b.runDir, storeDir, filepath.Base(rel))
+			if st, err := os.Lstat(p); err != nil || !st.Mode().IsRegular() {
+				continue
+			}
+			if _, err := os.Lstat(q); err != nil {
+				continue
+			}
+			if err := os.Remove(q); err != nil {
+				return err
+			}
+			if err := os.Link(p, q); err != nil {
+				return err
+			}
+			b.o.Count("runs_on_a_message_file_with_two_hard_links", 1)
+		}
 	}
 	if b.sc.Var != "sentfs" {
 		return nil
